@@ -26,7 +26,9 @@ TIER = ['quick']
 
 
 def route_pyname(r):
-    return r.name if r.version == 1 else '%s_v%d' % (r.name, r.version)
+    # a route name may carry a path (get/metadata): builtin_backends.rst maps '/' to '_' in Python names
+    base = r.name.replace('/', '_')
+    return base if r.version == 1 else '%s_v%d' % (base, r.version)
 
 
 def vsig_expected(model, ns_name, t):
